@@ -351,8 +351,14 @@ func newReplayer(module string) (*replayer, error) {
 }
 
 // build compiles the replay test binary of one package with all harness overlays.
-func (r *replayer) build(pkgRel string) (string, error) {
-	if b, ok := r.bins[pkgRel]; ok {
+func (r *replayer) build(pkgRel string) (string, error) { return r.buildMode(pkgRel, false) }
+
+func (r *replayer) buildMode(pkgRel string, race bool) (string, error) {
+	key := pkgRel
+	if race {
+		key += "#race"
+	}
+	if b, ok := r.bins[key]; ok {
 		return b, nil
 	}
 	replace := map[string]string{}
@@ -411,22 +417,45 @@ func (r *replayer) build(pkgRel string) (string, error) {
 	ovFile := filepath.Join(workDir, tag+"_overlay.json")
 	os.WriteFile(ovFile, ov, 0o644)
 	bin := filepath.Join(workDir, tag+".test")
-	cmd := exec.Command("go", "test", "-c", "-vet=off", "-tags=verif", "-overlay", ovFile, "-o", bin, "./"+pkgRel)
+	goArgs := []string{"test", "-c", "-vet=off", "-tags=verif", "-overlay", ovFile}
+	if race {
+		bin = filepath.Join(workDir, tag+".race.test")
+		goArgs = append(goArgs, "-race")
+	}
+	goArgs = append(goArgs, "-o", bin, "./"+pkgRel)
+	cmd := exec.Command("go", goArgs...)
 	cmd.Dir = repoDir
 	cmd.Env = goEnv()
 	out, err := cmd.CombinedOutput()
 	if err != nil {
 		return "", fmt.Errorf("go test -c ./%s: %v\n%s", pkgRel, err, tail(string(out), 2000))
 	}
-	r.bins[pkgRel] = bin
+	r.bins[key] = bin
 	return bin, nil
 }
 
 func (r *replayer) replayOne(v *gosym.Violation) {
 	pkgRel := strings.TrimPrefix(v.Pkg, r.module+"/")
-	bin, err := r.build(pkgRel)
+	bin, err := r.buildMode(pkgRel, v.Kind == "race")
 	if err != nil {
 		v.ReplayOut = err.Error()
+		return
+	}
+	if v.Kind == "race" {
+		// a race needs the right interleaving: repeat the native run under the race detector
+		for attempt := 0; attempt < 40 && !v.Replayed; attempt++ {
+			cmd := exec.Command(bin, "-test.run", "^TestVerifReplay$", "-test.timeout", "60s", "-test.v")
+			cmd.Dir = filepath.Join(repoDir, pkgRel)
+			cmd.Env = append(os.Environ(), "VERIF_REPLAY="+v.ReplayFile, "VERIF_HARNESS="+v.Harness, fmt.Sprintf("GOMAXPROCS=%d", 1+attempt%8))
+			out, _ := cmd.CombinedOutput()
+			v.ReplayOut = tail(string(out), 4000)
+			// the native report must involve the function the engine blamed, not just any race
+			fn := v.Tags["race-site"]
+			if k := strings.LastIndex(fn, "."); k >= 0 {
+				fn = fn[k+1:]
+			}
+			v.Replayed = strings.Contains(string(out), "DATA RACE") && (fn == "" || strings.Contains(string(out), "."+fn+"("))
+		}
 		return
 	}
 	limit := 90 * time.Second
@@ -459,6 +488,8 @@ func (r *replayer) replayOne(v *gosym.Violation) {
 		v.Replayed = strings.Contains(s, "all goroutines are asleep") || strings.Contains(s, "VERIF-REPLAY-TIMEOUT") || strings.Contains(s, "test timed out")
 	case "bound":
 		v.Replayed = strings.Contains(s, "VERIF-REPLAY-TIMEOUT") || strings.Contains(s, "test timed out")
+	case "race":
+		v.Replayed = strings.Contains(s, "DATA RACE")
 	}
 	if strings.Contains(s, "VERIF-REPLAY-INVALID") {
 		v.Replayed = false
@@ -468,7 +499,7 @@ func (r *replayer) replayOne(v *gosym.Violation) {
 func (r *replayer) replayAll(vs []*gosym.Violation, workers int) {
 	// build binaries first (sequential), then run in parallel
 	for _, v := range vs {
-		r.build(strings.TrimPrefix(v.Pkg, r.module+"/"))
+		r.buildMode(strings.TrimPrefix(v.Pkg, r.module+"/"), v.Kind == "race")
 	}
 	sem := make(chan struct{}, workers)
 	done := make(chan struct{})
